@@ -13,7 +13,7 @@ L3  monitors = the property text: each frame that decodes in isolation is delive
     exception escapes into the loop's exception handler; a bad first frame on an accepted
     connection closes that connection only (real Network.on_peer_accepted via vlib.world.World);
     every message class delivered twice to a fully wired client leaves every reader alive
-    (hypothesis of C02_reader_liveness_partial; its failure for WishlistInterval is finding F07).
+    (hypothesis handlers_never_cancel of C02_reader_liveness; it failed for WishlistInterval before the F07 repair, whose witness is replayed on every run).
 """
 from __future__ import annotations
 
@@ -271,6 +271,42 @@ def shrink_scenario(sc: dict, lay: dict) -> dict:
         return sc
 
 
+def directed_scenarios(rng, lay: dict) -> list:
+    """Scenarios that every run contains whatever the seed: for every compressed message class a frame with a
+    corrupt / truncated / non-zlib payload followed by a valid frame; for every connection kind an
+    undecodable frame of each exception family (short id, unknown id, lying count, bad string) followed
+    by a valid frame."""
+    out = []
+
+    def mk(kind, obf, items, ending='open'):
+        plains = [struct.pack('<I', len(b)) + b for _, b in items]
+        wire = [ref_obf_encode(bytes(rng.randrange(256) for _ in range(4)), p) if obf else p for p in plains]
+        stream = b''.join(wire)
+        k = rng.randrange(1, len(stream))
+        return {'kind': kind, 'obf': obf, 'labels': [l for l, _ in items], 'plains': plains, 'chunks': [stream[:k], stream[k:]],
+                'ending': ending, 'partial': b'', 'raise_every': 0}
+    for kind in KINDS:
+        for x in [m for m in table_msgs(lay, kind) if m['compressed']]:
+            good = L.make_obj(lay, x, L.gen_message(rng, lay, x, 'full')).serialize()[4:]
+            idb, payload = good[:x['id_width']], good[x['id_width']:]
+            flipped = bytearray(payload)
+            flipped[len(flipped) // 2] ^= 0x5a
+            for label, body in (('corrupt-zlib-flip', idb + bytes(flipped)), ('corrupt-zlib-cut', idb + payload[:len(payload) // 2]),
+                                ('corrupt-zlib-garbage', idb + b'not zlib at all'), ('corrupt-zlib-empty', idb)):
+                for obf in ((False, True) if kind != 'distributed' else (False,)):
+                    out.append(mk(kind, obf, [(label, body), ('valid', valid_body(rng, lay, kind)[0])]))
+        seen = set()
+        tries = 0
+        while len(seen) < 6 and tries < 400:
+            tries += 1
+            label, body = gen_body(rng, lay, kind)
+            if label in ('valid', 'trailing', 'corrupt-zlib', 'bitflip') or label in seen:
+                continue
+            seen.add(label)
+            out.append(mk(kind, kind != 'distributed' and len(seen) % 2 == 0, [(label, body), ('valid', valid_body(rng, lay, kind)[0])]))
+    return out
+
+
 def monitor(run: Run, sc: dict, obs: dict, lay: dict):
     """Property text on one real run."""
     expected = [isolated_decode(sc['kind'], p) for p in sc['plains']]
@@ -463,7 +499,7 @@ def server_alive(w) -> tuple:
 
 def handler_hypothesis(run: Run, lay: dict, tier: str):
     """Every message class delivered twice to a fully wired client; a reader task that ends while
-    its connection stays open refutes the hypothesis of C02_reader_liveness_partial."""
+    its connection stays open refutes the hypothesis handlers_never_cancel of C02_reader_liveness."""
     from vlib.world import World
     from aioslsk.protocol.messages import PeerInit
     w = None
@@ -599,11 +635,15 @@ def run(run: Run):
     accept_rows = handler_hypothesis(run, play, run.tier)
 
     # --- reader loop on fake transports
-    n = 36 if run.tier == 'quick' else 200
+    n = 28 if run.tier == 'quick' else 200
     scs = []
+    todo = [(sc['kind'], sc) for sc in directed_scenarios(run.rng, play)]
     for kind in KINDS:
-        for i in range(n):
-            sc = gen_scenario(run.rng, play, kind)
+        todo += [(kind, None) for _ in range(n)]
+    if True:
+        for kind, sc in todo:
+            if sc is None:
+                sc = gen_scenario(run.rng, play, kind)
             try:
                 obs = run_real(kind, sc['obf'], sc['chunks'], sc['ending'], sc['partial'], sc['raise_every'], cur)
             except Exception as e:
@@ -680,5 +720,42 @@ def replay(rep: dict) -> int:
         print('reader alive:', obs['reader_alive'], 'state:', obs['state'], 'unhandled:', obs['unhandled'])
         bad = obs['objs'] != exp or obs['unhandled'] or (sc['ending'] == 'open' and (not obs['reader_alive'] or obs['closed']))
         return 1 if bad else 0
-    print('accept-path witness:', wit)
+    if wit.get('scenario') == 'accept':
+        from vlib.world import World
+        from aioslsk.protocol.messages import PeerInit
+        w = World()
+        try:
+            w.start()
+            w.login()
+            net = w.client.network
+            port = w.settings.network.listening.obfuscated_port if wit.get('obf') else w.settings.network.listening.port
+            ep0 = w.net.incoming(w.settings.network.listening.port, peername=('10.0.0.50', 41050))
+            w.settle(10)
+            ep0.feed(PeerInit.Request(username='friend', typ='P', ticket=0).serialize())
+            w.settle(30)
+            before = list(net.peer_connections)
+            ep = w.net.incoming(port, peername=('10.0.0.60', 42000))
+            w.settle(10)
+            if wit.get('bytes') is None:
+                ep.feed_eof()
+            else:
+                first = bytes.fromhex(wit['bytes'])
+                ep.feed(ref_obf_encode(b'\x01\x02\x03\x04', first) if wit.get('obf') else first)
+                if wit.get('first') == 'partial-then-eof':
+                    ep.feed_eof()
+            w.settle(60)
+            new = [c for c in net.peer_connections if c not in before]
+            open_after = bool(new) and not ep.client_closed
+            expect_open = wit.get('first', '').startswith('valid-')
+            print('first frame:', wit.get('first'), 'obfuscated port:', wit.get('obf'))
+            print('transport closed by the client:', ep.client_closed, '| still registered:', bool(new), '| expected open:', expect_open)
+            print('other connection untouched:', not ep0.client_closed and all(c in net.peer_connections for c in before))
+            bad = open_after != expect_open or ep0.client_closed or (not open_after and (not ep.client_closed or new))
+            return 1 if bad else 0
+        finally:
+            try:
+                w.stop()
+            except Exception:
+                w.close()
+    print('unknown witness:', wit)
     return 1
